@@ -389,12 +389,22 @@ def run_assembly(asm_case, nsteps):
     asm = steps.Assembly()
     asm.machines = asm_case['machines']
     done = 0
+    init_ok = False
     try:
         asm.init()
+        init_ok = True
         for _ in range(nsteps):
             asm.step()
             done += 1
     except Exception as e:
+        # what the assembly has recorded after the refusal
+        try:
+            rec = [dict(s) for s in asm.past] + (
+                [dict(asm.state)] if asm.state is not None else [])
+        except Exception:
+            rec = None
+        asm_case['after_error'] = dict(init_ok=init_ok, recorded=rec,
+                                       done=done)
         cls = None
         for m in asm.machines.values():
             # an error raised inside a machine is logged by the proxy
@@ -451,6 +461,17 @@ def oracle_assembly(case, result, done):
     names = case['names']
     wf = all(n and not n.startswith('_') for n in names)
     if result[0] != 'ok':
+        # a refused step must not be recorded: after init and `done` steps
+        # the history holds exactly done + 1 states
+        ae = case.get('after_error')
+        if ae and ae['init_ok'] and ae['recorded'] is not None \
+                and len(ae['recorded']) != done + 1:
+            out.append((
+                f'after {done} steps and a refused step the assembly has '
+                f'recorded {len(ae["recorded"])} states: a step that did not '
+                'happen (and satisfies no component action) is in the history',
+                dict(step=done, recorded=ae['recorded'][-3:],
+                     result=list(result))))
         return out
     trace = result[1]
     for n, lg in case['machines'].items():
